@@ -79,6 +79,13 @@ class Report:
                         self.samples.append({"obligation": o["name"], "status": "proved", "backend": o["backend"], "info": o["info"]})
                 elif o["status"] == "undecided":
                     self.undecided.append({"obligation": o["name"], "info": o["info"]})
+            st = r.get("standin")
+            if st:
+                # bounded native stand-in run because this case was left undecided (never counted as proved)
+                self.add_bounded(st["name"], st.get("evaluations", 0), st.get("distinct", st.get("evaluations", 0)),
+                                 "stand-in for undecided obligations: " + str(st.get("bound")), st.get("failures", []))
+                if st.get("error"):
+                    self.notes.append(f"stand-in {st['name']} crashed: {st['error'][-300:]}")
             failed_names = {f["obligation"] for f in r["failures"]}
             for f in r["failures"]:
                 self.failures.append({**f, "case": r["case"], "kind": kind})
